@@ -11,6 +11,7 @@ A loop-free body over full-domain symbolic inputs proved equal to the expected e
 from __future__ import annotations
 
 import ast
+import math
 import re
 from fractions import Fraction
 
@@ -89,6 +90,8 @@ def split_functions(source):
 
 
 class Evaluator:
+    numeric = False  # numeric=True: leaves are python floats, functions are math.* (native confirmation of a symbolic disagreement)
+
     def __init__(self, layouts, objects, symvar):
         """objects: accessor base text -> struct name, e.g. {'state.state': 'State', 'calibration': 'Calibration'};
         symvar(name) -> z3 Real of the symbol called `name`."""
@@ -101,13 +104,15 @@ class Evaluator:
         if isinstance(node, ast.Constant):
             if isinstance(node.value, bool) or not isinstance(node.value, (int, float)):
                 raise TextError(f"constant {node.value!r}")
+            if self.numeric:
+                return float(node.value)
             fr = Fraction(repr(node.value)) if isinstance(node.value, float) else Fraction(node.value)
             return z3.RealVal(f"{fr.numerator}/{fr.denominator}")
         if isinstance(node, ast.Name):
             if node.id == "dt":
                 return self.symvar("dt")
             if node.id == "M_PI":
-                return z3.Real("pi")
+                return math.pi if self.numeric else z3.Real("pi")
             if node.id not in self.env:
                 self.problems.append(f"{node.id} used before it is assigned")
                 raise TextError(f"use of {node.id} before assignment")
@@ -134,6 +139,11 @@ class Evaluator:
             f = node.func
             if isinstance(f, ast.Name):
                 args = [self.ev(a) for a in node.args]
+                if self.numeric:
+                    fn = {"fabs": abs, "pow": math.pow}.get(f.id) or getattr(math, f.id, None)
+                    if fn is None:
+                        raise TextError(f"call of {f.id}")
+                    return fn(*args)
                 if f.id == "pow" and len(args) == 2:
                     e = node.args[1]
                     neg = isinstance(e, ast.UnaryOp) and isinstance(e.op, ast.USub)
